@@ -441,8 +441,16 @@ func fp(sb *strings.Builder, v reflect.Value, depth int) {
 			return
 		}
 		fmt.Fprintf(sb, "%s[%d]{", v.Type(), v.Len())
+		n := v.Len()
+		if v.Kind() == reflect.Slice && v.Cap() > n && v.Cap()-n <= 64 {
+			// the spare capacity belongs to the caller's backing array too: an append that
+			// writes into it is a modification (the caller may hold a longer slice of it)
+			v = v.Slice(0, v.Cap())
+		}
 		for i := 0; i < v.Len(); i++ {
-			if i > 0 {
+			if i == n {
+				sb.WriteString(" |cap: ")
+			} else if i > 0 {
 				sb.WriteString(",")
 			}
 			fp(sb, v.Index(i), depth+1)
